@@ -118,6 +118,16 @@ def rings_batch(acc, batch):
 
 
 def chain_defs(L, order):
+    if order.startswith("layers"):
+        # L layers of two targets; each target consumes both outputs of the layer below (reconvergent: 2^L paths from top to bottom)
+        half = max(1, L // 2)
+        defs = []
+        for k in range(half):
+            for w in (0, 1):
+                ins = ["src"] if k == 0 else [f"c{2 * (k - 1)}", f"c{2 * (k - 1) + 1}"]
+                defs.append((f"C{2 * k + w}", ins, [f"c{2 * k + w}"]))
+        defs = defs[:L] if L >= 2 else defs[:1]
+        return defs[::-1] if order == "layers_sinks_first" else defs
     defs = [(f"C{i}", [f"c{i - 1}" if i else "src"], [f"c{i}"]) for i in range(L)]
     if order == "reversed":
         defs = defs[::-1]
@@ -175,7 +185,9 @@ def chains_batch(acc, batch):
         obs = eval_chain(L, order, op)
         if op == "touch":
             shutil.rmtree(eval_chain.touch_dir, ignore_errors=True)
-        exp = f"ok:{L}"
+        exp = f"ok:{len(chain_defs(L, order))}"
+        if order.startswith("layers") and op == "dfs" and L >= 2:
+            exp = f"ok:{L - 1}"  # from one top-layer target everything is reachable except its sibling
         case = dict(kind="chains", L=L, order=order, op=op)
         acc.case(key=("chain", L, order, op), outcome=f"chain {op} {'ok' if obs == exp else obs}", sample=case)
         if obs != exp:
@@ -212,7 +224,7 @@ def cli_batch(acc, batch):
         jid = [j["id"] for j in s0.jobs()][0]
         s0.clear_journal()
         w = W.World(wf, files=files, conf={"backend": backend, "use_spec_hashes": True}, tracked={backend: {defs[0][0]: jid}},
-                    hashes={defs[0][0]: "0" * 40}, logs={defs[0][0] + ".stdout": "old log\n"}, sim=sim)
+                    hashes={defs[0][0]: "0" * 40}, logs={defs[0][0] + ".stdout": "old log\n", "Renamed.stdout": "log of a target that no longer exists\n", "Renamed.stderr": "e\n"}, sim=sim)
         with W.Session(w) as s:
             before = s.snapshot()
             r = s.gwf(cmd)
@@ -250,6 +262,7 @@ def run(ctx):
     ctx.pmap(me, "rings_batch", [(k, rot, v) for k in range(2, 9) for rot in range(k) for v in ("acyclic_first", "ring_first", "acyclic")], chunk=8)
     Ls = [1, 2, 10, 100, 400, 600, 1000, 2000] + ([] if quick else [3500, 5000])
     ctx.pmap(me, "chains_batch", [(L, o, op) for L in Ls for o in ("forward", "reversed", "interleaved") for op in ("graph", "dfs", "status", "submit", "touch")], chunk=1)
+    ctx.pmap(me, "chains_batch", [(L, o, op) for L in (6, 20, 40, 80) for o in ("layers_sources_first", "layers_sinks_first") for op in ("graph", "dfs", "status", "submit", "touch")], chunk=1)
     ctx.pmap(me, "cli_batch", [(w, c, b) for w in BAD_WORKFLOWS for c in COMMANDS for b in (("slurm",) if quick else ("slurm", "sge", "lsf"))], chunk=4)
     ctx.rule = ("sets: (target set with arbitrary input/output subsets, existing-file subset) — each repeated over every definition order and spelling "
                 "offsets; rings/chains: parametric families; cli: (ill-formed workflow, command, backend); every case has a defined expected classification")
